@@ -161,29 +161,24 @@ Proof. intros H. rewrite dot_comm, dot_divs_l, dot_comm by exact H. reflexivity.
 Lemma proj_orth (t n : V3) q : dotR (subR t (scaleR q n)) n = dotR t n - q * dotR n n.
 Proof. r3 t; r3 n. unfold dot, vsub, vscale, vx, vy, vz. cbn [fst snd add sub mul Rops]. ring. Qed.
 
-Theorem tria_frame_in_plane p0 p1 p2 tumin :
-  let tn0 := crossR (subR p1 p0) (subR p2 p0) in
-  tiny8 Rops <= norm Rops tn0 ->
-  (let tn := vdivs Rops tn0 (norm Rops tn0) in tiny8 Rops <= norm Rops (subR tumin (scaleR (dotR tn tumin) tn))) ->
-  let '(u, w) := tria_frame Rops p0 p1 p2 tumin in
+(* any vector w of the triangle plane that is not tiny yields an orthonormal in-plane frame *)
+Lemma frame_generic (tn0 wv : V3) : tiny8 Rops <= norm Rops tn0 -> dotR wv tn0 = 0 -> tiny8 Rops <= norm Rops wv ->
+  let tn := vdivs Rops tn0 (norm Rops tn0) in
+  let u := vdivs Rops wv (maxK Rops (norm Rops wv) (tiny8 Rops)) in
+  let w := crossR tn u in
   dotR u u = 1 /\ dotR w w = 1 /\ dotR u w = 0 /\ dotR u tn0 = 0 /\ dotR w tn0 = 0.
 Proof.
-  intros tn0 H1 H2. unfold tria_frame. fold tn0.
-  pose proof tiny8_pos as T.
-  assert (M1 : maxK Rops (norm Rops tn0) (tiny8 Rops) = norm Rops tn0).
-  { unfold maxK. cbn [ltb Rops]. destruct (Rltb (norm Rops tn0) (tiny8 Rops)) eqn:E; [apply Rltb_true in E; lra|reflexivity]. }
-  rewrite M1. set (N := norm Rops tn0) in *. set (tn := vdivs Rops tn0 N) in *. cbv zeta in H2.
-  set (wv := subR tumin (scaleR (dotR tn tumin) tn)) in *.
+  intros H1 Hp H2. pose proof tiny8_pos as T. cbv zeta.
   assert (M2 : maxK Rops (norm Rops wv) (tiny8 Rops) = norm Rops wv).
   { unfold maxK. cbn [ltb Rops]. destruct (Rltb (norm Rops wv) (tiny8 Rops)) eqn:E; [apply Rltb_true in E; lra|reflexivity]. }
-  rewrite M2. set (M := norm Rops wv) in *.
+  rewrite M2. set (N := norm Rops tn0) in *. set (tn := vdivs Rops tn0 N). set (M := norm Rops wv) in *.
   assert (HN : N * N = dotR tn0 tn0) by (unfold N, norm, norm2; cbn [sqrtK Rops]; apply sqrt_sqrt, dot_self_nonneg).
   assert (HM : M * M = dotR wv wv) by (unfold M, norm, norm2; cbn [sqrtK Rops]; apply sqrt_sqrt, dot_self_nonneg).
   assert (N0 : N <> 0) by lra. assert (M0 : M <> 0) by lra.
   assert (Tn : dotR tn tn = 1).
   { unfold tn. rewrite dot_divs_l, dot_divs_r by exact N0. rewrite <- HN. field. exact N0. }
   assert (Wn : dotR wv tn = 0).
-  { unfold wv. rewrite proj_orth, Tn, (dot_comm tn tumin). ring. }
+  { unfold tn. rewrite dot_divs_r by exact N0. rewrite Hp. field. exact N0. }
   assert (Uu : dotR (vdivs Rops wv M) (vdivs Rops wv M) = 1).
   { rewrite dot_divs_l, dot_divs_r by exact M0. rewrite <- HM. field. exact M0. }
   assert (Ut : dotR tn (vdivs Rops wv M) = 0).
@@ -197,4 +192,32 @@ Proof.
   - rewrite dot_comm. apply cross_dot_r.
   - apply Z. rewrite dot_comm. exact Ut.
   - apply Z. apply cross_dot_l.
+Qed.
+
+(* curvature_tria: on every triangle that is not degenerate (normal and first edge longer than 1e-8) the two returned directions
+   are unit, orthogonal and lie in the triangle plane -- whatever direction was pooled from the vertices *)
+Theorem tria_frame_in_plane p0 p1 p2 tumin :
+  let tn0 := crossR (subR p1 p0) (subR p2 p0) in
+  tiny8 Rops <= norm Rops tn0 -> tiny8 Rops <= norm Rops (subR p1 p0) ->
+  let '(u, w) := tria_frame Rops p0 p1 p2 tumin in
+  dotR u u = 1 /\ dotR w w = 1 /\ dotR u w = 0 /\ dotR u tn0 = 0 /\ dotR w tn0 = 0.
+Proof.
+  intros tn0 H1 He. unfold tria_frame. fold tn0.
+  pose proof tiny8_pos as T.
+  assert (M1 : maxK Rops (norm Rops tn0) (tiny8 Rops) = norm Rops tn0).
+  { unfold maxK. cbn [ltb Rops]. destruct (Rltb (norm Rops tn0) (tiny8 Rops)) eqn:E; [apply Rltb_true in E; lra|reflexivity]. }
+  rewrite M1. set (tn := vdivs Rops tn0 (norm Rops tn0)).
+  set (w0 := subR tumin (scaleR (dotR tn tumin) tn)).
+  assert (N0 : norm Rops tn0 <> 0) by lra.
+  assert (Tn : dotR tn tn = 1).
+  { unfold tn. rewrite dot_divs_l, dot_divs_r by exact N0.
+    assert (HN : norm Rops tn0 * norm Rops tn0 = dotR tn0 tn0) by (unfold norm, norm2; cbn [sqrtK Rops]; apply sqrt_sqrt, dot_self_nonneg).
+    rewrite <- HN. field. exact N0. }
+  cbn [ltb Rops]. destruct (Rltb (norm Rops w0) (tiny8 Rops)) eqn:E.
+  - (* fallback: the first edge, which lies in the plane *)
+    apply (frame_generic tn0 (subR p1 p0)); [exact H1| |exact He]. unfold tn0. rewrite dot_comm. apply cross_dot_l.
+  - apply Rltb_false in E. apply (frame_generic tn0 w0); [exact H1| |lra].
+    assert (W : dotR w0 tn = 0) by (unfold w0; rewrite proj_orth, Tn, (dot_comm tn tumin); ring).
+    unfold tn in W. rewrite dot_divs_r in W by exact N0.
+    replace (dotR w0 tn0) with (dotR w0 tn0 / norm Rops tn0 * norm Rops tn0) by (field; exact N0). rewrite W. ring.
 Qed.
